@@ -46,6 +46,27 @@ type SigCase struct {
 	Logic     string      `json:"logic"`
 	Contract  bool        `json:"contract"` // also ask the real contract
 	SignerIdx int         `json:"signer_idx"`
+	// Spell: how addresses are written in the hub's records (recipients come from user messages and events, token ids and
+	// logic-call addresses from configuration; everything common.IsHexAddress admits): element i uses spelling (Spell+i)%6
+	Spell int `json:"spell,omitempty"`
+}
+
+// spellAddr writes a 20-byte address in one of the admissible spellings.
+func spellAddr(a [20]byte, k int) string {
+	cs := common.Address(a).Hex()
+	switch k % 6 {
+	case 1:
+		return strings.ToLower(cs)
+	case 2:
+		return "0x" + strings.ToUpper(cs[2:])
+	case 3:
+		return "0X" + cs[2:]
+	case 4:
+		return strings.ToLower(cs[2:])
+	case 5:
+		return strings.ToUpper(cs[2:])
+	}
+	return cs
 }
 
 var u64Edges = []uint64{0, 1, 2, 255, 256, 1<<31 - 1, 1 << 31, 1<<32 - 1, 1 << 32, 1<<63 - 1, 1 << 63, 1<<63 + 1, 1<<64 - 1}
@@ -127,6 +148,9 @@ func genSigCase(t *rapid.T) interface{} {
 		c.Logic = genAddr(t, "logic")
 	}
 	c.SignerIdx = rapid.IntRange(0, 3).Draw(t, "signer")
+	if rapid.IntRange(0, 2).Draw(t, "respell") == 0 {
+		c.Spell = rapid.IntRange(1, 5).Draw(t, "spell")
+	}
 	return c
 }
 
@@ -170,12 +194,12 @@ func runSigCase(ci interface{}, rec *pbt.Rec) *pbt.Failure {
 		ref = abiref.SignerSetCheckpoint(gid, c.Nonce, vals, pows)
 		rec.NonTrivial = len(c.Members) >= 2 || big63
 	case "batch":
-		b := mtypes.BatchTx{BatchNonce: c.Nonce, Timeout: c.Timeout, ExternalTokenId: common.Address(a20(c.Token)).Hex()}
+		b := mtypes.BatchTx{BatchNonce: c.Nonce, Timeout: c.Timeout, ExternalTokenId: spellAddr(a20(c.Token), c.Spell)}
 		var am, fe []*big.Int
 		var de [][20]byte
 		for i, tx := range c.Txs {
 			b.Transactions = append(b.Transactions, &mtypes.SendToExternal{Id: uint64(i + 1),
-				ExternalRecipient: common.Address(a20(tx.Dest)).Hex(),
+				ExternalRecipient: spellAddr(a20(tx.Dest), c.Spell+i),
 				Token:             mtypes.ExternalToken{Amount: sdk.NewIntFromBigInt(bi(tx.Amount)), ExternalTokenId: b.ExternalTokenId},
 				Fee:               mtypes.ExternalToken{Amount: sdk.NewIntFromBigInt(bi(tx.Fee)), ExternalTokenId: b.ExternalTokenId}})
 			am, fe, de = append(am, bi(tx.Amount)), append(fe, bi(tx.Fee)), append(de, a20(tx.Dest))
@@ -184,16 +208,16 @@ func runSigCase(ci interface{}, rec *pbt.Rec) *pbt.Failure {
 		ref = abiref.BatchCheckpoint(gid, am, de, fe, c.Nonce, a20(c.Token), c.Timeout)
 		rec.NonTrivial = len(c.Txs) >= 2 || big63
 	case "logic":
-		cc := mtypes.ContractCallTx{InvalidationNonce: c.Nonce, InvalidationScope: mustHex(c.Scope), Address: common.Address(a20(c.Logic)).Hex(),
+		cc := mtypes.ContractCallTx{InvalidationNonce: c.Nonce, InvalidationScope: mustHex(c.Scope), Address: spellAddr(a20(c.Logic), c.Spell),
 			Payload: mustHex(c.Payload), Timeout: c.Timeout}
 		var ta, fa []*big.Int
 		var tt, ft [][20]byte
-		for _, tx := range c.Txs {
-			cc.Tokens = append(cc.Tokens, mtypes.ExternalToken{Amount: sdk.NewIntFromBigInt(bi(tx.Amount)), ExternalTokenId: common.Address(a20(tx.Dest)).Hex()})
+		for i, tx := range c.Txs {
+			cc.Tokens = append(cc.Tokens, mtypes.ExternalToken{Amount: sdk.NewIntFromBigInt(bi(tx.Amount)), ExternalTokenId: spellAddr(a20(tx.Dest), c.Spell+i)})
 			ta, tt = append(ta, bi(tx.Amount)), append(tt, a20(tx.Dest))
 		}
-		for _, tx := range c.Fees {
-			cc.Fees = append(cc.Fees, mtypes.ExternalToken{Amount: sdk.NewIntFromBigInt(bi(tx.Amount)), ExternalTokenId: common.Address(a20(tx.Dest)).Hex()})
+		for i, tx := range c.Fees {
+			cc.Fees = append(cc.Fees, mtypes.ExternalToken{Amount: sdk.NewIntFromBigInt(bi(tx.Amount)), ExternalTokenId: spellAddr(a20(tx.Dest), c.Spell+i+1)})
 			fa, ft = append(fa, bi(tx.Amount)), append(ft, a20(tx.Dest))
 		}
 		hubDigest = cc.GetCheckpoint(gid)
